@@ -17,6 +17,18 @@ def main():
     os.makedirs(common.SCRATCH, exist_ok=True)
     mod = importlib.import_module(f"vcheck.props.{prop.lower()}")
     if a.replay:
+        try:
+            import json
+            rec = json.load(open(a.replay)).get("replay", {})
+        except Exception:
+            rec = {}
+        if "kani_harness" in rec:
+            from . import kanix
+            v = kanix.replay(rec)
+            print(v or "the recorded Kani harness passes (or its counterexample does not reproduce natively)")
+            if v:
+                print(f"VIOLATION property={prop} replay={a.replay}")
+            sys.exit(1 if v else 0)
         sys.exit(mod.replay(a.replay))
     def attempt():
         rep = Report(prop, a.tier, seed)
@@ -49,6 +61,9 @@ def main():
             rep = rep2
         else:
             mirsym.AUTO_INLINE = False
+    # second engine: the leaf kernels Kani reaches are decided again by CBMC over the compiled functions (vcheck/kanix.py)
+    from . import kanix
+    kanix.run(rep, prop, a.tier)
     force = os.environ.get("VERIF_FORCE_FALLBACK") == "1"        # audit of the batteries on a tree where the property holds
     if (force or (rep.inconclusive and not rep.violations)) and hasattr(mod, "fallback") and os.environ.get("VERIF_NO_FALLBACK") != "1":
         # A kernel could not be built or a solver model found no matching scenario (typically after a restructuring of the code the
